@@ -404,51 +404,41 @@ def _predicates(F, r5):
         r5.require("ok" in rows or not tab.paths, (fn, "ok-iff-not-revoked"), "check_revocation_bitmap_status never accepts")
     # ---- Credential::check_structure
     fn = CRED + "::check_structure"
-    h = F.hir(fn)
-    if r5.anchor(h, fn):
-        env = H.Env(h)
-        tree, infos = L.exit_infos(h)
-        errs = sorted(e.outcome for e in infos if not L.is_success_exit(e))
-        r5.site("check_structure error exits %s" % errs, h["value"]["sp"])
-        for need in ("Err(MissingBaseContext)", "Err(MissingBaseType)", "Err(MissingSubject)", "Err(InvalidSubject)"):
-            r5.require(need in errs, (fn, need), "check_structure has no %s exit" % need)
-        # structure of the guards: base context first
-        m = H.find_first(h, lambda n: n.get("k") == "match" and n.get("src") == "normal")
-        okctx = False
-        if m:
-            sc = H.strip(m["scrut"])
-            idx = H.literals(sc)
-            so = H.origins(sc, env, extra=re.compile(r"::get$"))
-            okctx = only(so, "param", "self", "context") and idx == [0]
-            t = L.decision_table(m)
-            r5.require(any(k.startswith("Some(_) if") for k in t) and all(v == "Err(MissingBaseContext)" for k, v in t.items() if not k.endswith("if ..")), (fn, "context-table"), "base-context table is %s" % t)
-            g = m["arms"][0].get("guard")
-            if g is not None:
-                consts = H.called_fns(g)
-                r5.require(any(c.endswith("Credential::base_context") for c in consts), (fn, "context-const"), "first context is not compared with Credential::base_context()")
-        r5.require(okctx, (fn, "context-first"), "the base context is not required at position 0 of self.context")
-        gs = L.block_guards(H.root(h))
-        kinds = {}
-        for cond, oc, node in gs:
-            inner, neg = H.negated(cond)
-            fns = {f.rsplit("::", 1)[-1] for f in H.called_fns(inner)}
-            roots = {o[2] for x in H.walk(inner) if x.get("k") in ("field",) for o in H.origins(x, env) if o[:2] == ("param", "self") and len(o) > 2}
-            kinds[oc] = (neg, sorted(fns), sorted(roots))
-            r5.site("check_structure guard → %s : %s%s on %s" % (oc, "!" if neg else "", sorted(fns), sorted(roots)), node["sp"])
-        k = kinds.get("Err(MissingBaseType)")
-        r5.require(k is not None and k[0] is True and "any" in k[1] and "base_type" in k[1] and k[2] == ["types"], (fn, "base-type"), "base type check is not `!types.iter().any(|t| t == base_type())`: %s" % (k,))
-        k = kinds.get("Err(MissingSubject)")
-        r5.require(k is not None and k[0] is False and "is_empty" in k[1] and k[2] == ["credential_subject"], (fn, "subject"), "subject presence check is not `credential_subject.is_empty()`: %s" % (k,))
-        loops = L.for_loops(h)
-        okl = False
-        for it, pat, body, _ in loops:
-            io = H.origins(it, env, extra=re.compile(r"::iter$"))
-            for cond, oc, node in L.block_guards(body):
-                cj = H.conjuncts(cond)
-                fns = [sorted({f.rsplit("::", 1)[-1] for f in H.called_fns(c)}) for c in cj]
-                if oc == "Err(InvalidSubject)" and only(io, "param", "self", "credential_subject") and sorted(fns) == [["is_empty"], ["is_none"]]:
-                    okl = True
-                    r5.site("check_structure: each subject with no id and no properties → InvalidSubject", node["sp"])
-        r5.require(okl, (fn, "empty-subject"), "the per-subject emptiness check (id.is_none() && properties.is_empty() → InvalidSubject over all subjects) was not found")
-    r5.floor(13)
+    if r5.anchor(F.hir(fn), fn):
+        # on the decision table: Ok only with context[0] == base_context(), some type == base_type(), at least one subject, and for
+        # the generic subject an id or a non-empty property set; the four rejections exist
+        tab = SR.Table(F, fn, opaque=r"base_context$|base_type$|OneOrMany::(is_empty|iter|get|len)$|Object::is_empty$|::is_empty$", rule=r5)
+        CTX, TYPES, SUBJ = SR.fld("context"), SR.fld("types"), SR.fld("credential_subject")
+        errs = set()
+        for q in tab.paths:
+            if SR.is_failure(q.ret):
+                errs.add(SR.err_name(q.ret))
+                continue
+            where = q.describe()[-200:]
+            g0 = [e for e in q.calls(r"OneOrMany::get$") if SR.pure(e.args[0], CTX) and e.args[1] == 0 and q.succeeded(e) is True]
+            bc = q.calls(r"base_context$")
+            okc = bool(g0) and bool(bc) and any(a[0] == "eq" and c is True and {sym.term(bc[0].result), ("payload", g0[0].result.t, "Some", 0)} == {a[1], a[2]} for (a, c, _, _) in q.decisions)
+            r5.require(okc, (fn, "context-first"), "the base context is not required at position 0 of self.context — accepting path: …%s" % where)
+            bt = q.calls(r"base_type$")
+            okt = bool(bt) and any(a[0] == "eq" and c is True and sym.term(bt[0].result) in (a[1], a[2]) and any(SR.derives(x, TYPES) for x in (a[1], a[2])) for (a, c, _, _) in q.decisions)
+            r5.require(okt, (fn, "base-type"), "base type check is not `types.iter().any(|t| t == base_type())` — accepting path: …%s" % where)
+            se = [e for e in q.calls(r"is_empty$") if SR.pure(e.args[0], SUBJ)]
+            oks = (bool(se) and q.succeeded(se[0]) is False) or any(a[0] == "nonempty" and c is True and SR.derives(a[1], SUBJ) for (a, c, _, _) in q.decisions)
+            r5.require(oks, (fn, "subject"), "a credential without subjects is accepted — accepting path: …%s" % where)
+            # the generic subject (an element of credential_subject): id present or properties non-empty
+            looked = [a for (a, c, _, _) in q.decisions if a[0] == "nonempty" and c is True and SR.derives(a[1], SUBJ)]
+            if looked:
+                idv = [v_ for t_, v_ in q.variant.items() if isinstance(t_, tuple) and t_[:1] == ("field",) and t_[2] == "id" and SR.derives(t_, SUBJ)]
+                pe = [e for e in q.calls(r"is_empty$") if SR.derives(e.args[0], SUBJ) and "properties" in sym.fmt(sym.term(e.args[0]))]
+                okl = ("Some" in idv) or any(q.succeeded(e) is False for e in pe)
+                r5.require(okl, (fn, "empty-subject"), "a subject with neither id nor properties is accepted — accepting path: …%s" % where)
+            elif any(a[0] == "nonempty" and c is False and SR.derives(a[1], SUBJ) for (a, c, _, _) in q.decisions) and bool(se) and q.succeeded(se[0]) is False:
+                pass      # "not empty" and "iterates over nothing": an impossible combination of two oracles
+            else:
+                r5.fail((fn, "empty-subject"), "the per-subject emptiness check (id.is_none() && properties.is_empty() → InvalidSubject over all subjects) was not found on an accepting path")
+        r5.site("check_structure error exits %s" % sorted(map(str, errs)))
+        for need in ("MissingBaseContext", "MissingBaseType", "MissingSubject", "InvalidSubject"):
+            r5.require(need in errs or not tab.paths, (fn, "Err(%s)" % need), "check_structure has no %s exit" % need)
+        r5.site("check_structure: Ok only with context[0] = base, a base type, ≥ 1 subject, no empty subject")
+    r5.floor(11)
 
